@@ -25,10 +25,13 @@ type c02Conc struct {
 	HBMs   int   `json:"hb_ms"`  // heart_beat_interval of the agent
 	Bursts []int `json:"bursts"` // number of peer Heartbeat Requests sent back to back per burst
 	Sess   int   `json:"sess"`   // session establishments interleaved between the bursts
+	// Reassoc: before every second burst the peer sets the association up again on the same connection (as a
+	// control plane that lost track does) while the agent's heartbeats keep going out
+	Reassoc bool `json:"reassoc,omitempty"`
 }
 
 func genC02Conc(t *rapid.T) c02Conc {
-	c := c02Conc{HBMs: rapid.SampledFrom([]int{2, 3, 5, 10}).Draw(t, "hb"), Sess: rapid.IntRange(0, 3).Draw(t, "sess")}
+	c := c02Conc{HBMs: rapid.SampledFrom([]int{2, 3, 5, 10}).Draw(t, "hb"), Sess: rapid.IntRange(0, 3).Draw(t, "sess"), Reassoc: rapid.Bool().Draw(t, "reassoc")}
 	n := rapid.IntRange(2, scale(8, 16)).Draw(t, "nbursts")
 	for i := 0; i < n; i++ {
 		c.Bursts = append(c.Bursts, rapid.IntRange(1, 60).Draw(t, "burst"))
@@ -62,6 +65,11 @@ func runC02Conc(c c02Conc, ev *Ev) error {
 			op := c05Sess(bi, false, false, "")
 			if o := run.Exec(op); o.NoResp || !o.Accepted {
 				return fmt.Errorf("establishment %d between the bursts: noresp=%v cause=%d", bi, o.NoResp, o.Cause)
+			}
+		}
+		if c.Reassoc && bi%2 == 1 {
+			if o := run.Exec(opAssoc(0, uint32(0x300+bi))); o.NoResp || !o.Accepted {
+				return fmt.Errorf("repeated Association Setup before burst %d: noresp=%v cause=%d", bi, o.NoResp, o.Cause)
 			}
 		}
 		p.Drain()
@@ -131,7 +139,7 @@ func runC02Conc(c c02Conc, ev *Ev) error {
 
 func TestC02Conc(t *testing.T) {
 	ev := newEv("C02")
-	ev.Rule = "fresh agent with heartbeats every 2-10 ms (answered by the scripted peer) under the race detector: bursts of 1-60 peer Heartbeat Requests sent back to back, interleaved with session establishments, while the agent's heartbeat monitor writes to the same socket; every request of a burst must be answered exactly once with its sequence number, nothing else may arrive, every agent heartbeat must decode; non-trivial = >= 3 agent heartbeats observed and >= 50 peer requests; distinct by case"
+	ev.Rule = "fresh agent with heartbeats every 2-10 ms (answered by the scripted peer) under the race detector: bursts of 1-60 peer Heartbeat Requests sent back to back, interleaved with session establishments and (half of the cases) repeated Association Setups, while the agent's heartbeat monitor writes to the same socket; every request of a burst must be answered exactly once with its sequence number, nothing else may arrive, every agent heartbeat must decode; non-trivial = >= 3 agent heartbeats observed and >= 50 peer requests; distinct by case"
 	ev.Assume = []string{"overlap of the writing goroutines is sampled by timing and the race detector, not enumerated"}
 	runProp(t, ev, "conc", true, genC02Conc, runC02Conc)
 }
